@@ -31,7 +31,7 @@ def run(tier, seed, replay=None):
     build = lib.Build().run()
     rep.proof = lib.compile_props(PID)
     rng = lib.rng_for(seed, PID)
-    n = 150 if tier == 'quick' else 6000
+    n = 150 if tier == 'quick' else 48000
     cases = []
     for c in range(n):
         doc = gen.gen_vcd_doc(rng)
